@@ -170,15 +170,17 @@ def instances(tier):
         out.append({'func': 'h_order2_call', 'params': {'I': [list(i) for i in sets[name]]}})
     for ns in ([[2, 2], [2, 3], [2, 2, 2]] if quick else [[2, 2], [2, 3], [2, 2, 2], [3, 3], [2, 3, 2]]):
         out.append({'func': 'h_additive_full_grid', 'params': {'ns': ns, 'r': 2}})
-    for m, n, d in ([(2, 2, 2), (3, 2, 2)] if quick else [(2, 2, 2), (3, 2, 2), (3, 3, 2), (3, 2, 3)]):
-        out.append({'func': 'h_func', 'params': {'m': m, 'n': n, 'd': d}})
+    for m, n, d in ([(2, 2, 2)] if quick else [(2, 2, 2), (3, 2, 2), (3, 3, 2), (3, 2, 3)]):
+        # the ridge matrix A^T A + lamb I is positive definite for lamb > 0; its determinant is
+        # treated as a generic (non-zero) divisor instead of asking the solver to prove definiteness
+        out.append({'func': 'h_func', 'params': {'m': m, 'n': n, 'd': d}, 'opts': {'generic_divisors': True}})
     return out
 
 
 BOUNDS = {
     'quick': 'index version: d in {2,3}, mode sizes <= 3, sample sets: full grid, sparse, duplicates, gaps in the observed domain; '
              'ranks 2,3; noise 0 and symbolic noise scale; order-2 model terms and __call__; functional variant: m<=3 points, n=2, d=2 '
-             'with symbolic points, values, regularisation',
+             'with symbolic points, values, regularisation (m=2 in the quick tier)',
     'thorough': 'adds full 2x2x2 grid order 2, 3x3 grids, functional variant n=3 / d=3',
 }
 OUTSIDE = ('order-2 TT values for generic data (SVD of derived pair matrices followed by rounding); ANOVA.sample, save/load; '
